@@ -108,6 +108,11 @@ def main(tier, replay=None):
             for comb in itertools.combinations(sub, r_):
                 cases.append([(w, f, rnd.choice(kinds)) for (w, f) in comb])
         cases += [[("garble", "*", "wipe")], [("go-module", "*", "wipe")], [("garble", "*", "wipe"), ("go-module", "*", "wipe")], [("garble-build", "*", "wipe")]]
+        # what a kill during the linker build leaves: a partial binary and no version file yet
+        lk_bin = next((f for f in linker if f.endswith("link")), None)
+        lk_ver = next((f for f in linker if f.endswith(".version")), None)
+        partial_linker = [[("garble", lk_bin, "truncate"), ("garble", lk_ver, "delete")], [("garble", lk_bin, "empty"), ("garble", lk_ver, "delete")]] if lk_bin and lk_ver else []
+        cases += partial_linker
         if tier == "quick":
             single = cases[: len(targets) * 3]
             lk = [c for c in single if c[0][1].startswith("tool")]
@@ -115,7 +120,7 @@ def main(tier, replay=None):
             rnd.shuffle(other)
             # each linker fault costs a linker rebuild (~13 s): three of them in the quick tier
             lk_pick = [c for c in lk if (c[0][1].endswith("link") and c[0][2] in ("empty", "truncate")) or (c[0][1].endswith(".version") and c[0][2] == "delete")]
-            cases = other[:18] + lk_pick + cases[len(targets) * 3:][:5] + cases[-4:]
+            cases = other[:18] + lk_pick + cases[len(targets) * 3:][:5] + cases[-4 - len(partial_linker):]
         st = chk.cov["streams"].setdefault("e2e:faults", {"entries_of_module_in_GARBLE_CACHE": len(new_g), "entries_of_module_in_GOCACHE": len(new_go), "linker_files": len(linker), "fault_cases": 0, "identical_to_cold": 0})
         for case in cases:
             C = c06.CacheSet(E, "case", W)
